@@ -139,6 +139,50 @@ def Op.skipsLoad : Op → Bool
     | some b => decide (0 ≤ start) && decide (0 ≤ b) && decide (b ≤ start)
   | _ => false
 
+/-- Does the read perform at least two `_load()`s of the root?  Sequentially a second load
+is a no-op, but in buffered mode each load re-checks the buffer capacity, so the count
+matters there (two are enough: a third load changes nothing any more).  `==`/`!=` load
+and then call `self()`; `repr` loads once per nested container; the ABC mix-ins
+`__contains__`/`count`/`index` compare elements with `==` (two loads per container
+child) and `index` additionally loads on every `self[i]`. -/
+def Op.loadsTwice (t : T) : Op → Bool
+  | .dRead (.eq _) | .dRead (.ne _) | .lRead (.eq _) | .lRead (.ne _) => true
+  | .dRead .repr => match t with
+    | .dict _ kvs => kvs.any (fun kv => !kv.2.isLeaf)
+    | _ => false
+  | .lRead .repr => match t with
+    | .list _ xs => xs.any (fun x => !x.isLeaf)
+    | _ => false
+  | .lRead (.count _) => match t with
+    | .list _ xs => xs.any (fun x => !x.isLeaf)
+    | _ => false
+  | .lRead (.contains v) => match t with
+    | .list _ xs =>
+      let upto := match Py.findFrom (fun x => Tr.pyEq x v) xs 0 xs.length with
+        | some j => xs.take (j + 1)
+        | none => xs
+      upto.any (fun x => !x.isLeaf)
+    | _ => false
+  | .lRead (.index v start stop) => match t with
+    | .list _ xs =>
+      let n : Int := xs.length
+      let a := if start < 0 then max (n + start) 0 else start
+      let b : Option Int := stop.map (fun b => if b < 0 then b + n else b)
+      let hi : Int := match b with | none => n | some b => min b n
+      let lens := (if start < 0 then 1 else 0) + (match stop with | some b => if b < 0 then 1 else 0 | none => 0)
+      let found := Py.findFrom (fun x => Tr.pyEq x v) xs a.toNat (if hi < 0 then 0 else hi.toNat)
+      let last : Int := match found with | some j => (j : Int) + 1 | none => hi
+      let visited := if last > a then (last - a).toNat else 0
+      -- the access that raises IndexError (loop runs past the end) also loads
+      let overrun := match found, b with
+        | some _, _ => 0
+        | none, none => if a ≤ n then 1 else 1
+        | none, some b => if b > n ∧ a ≤ b then 1 else 0
+      let seen := (xs.drop a.toNat).take visited
+      decide (lens + visited + overrun + 2 * (seen.filter (fun x => !x.isLeaf)).length ≥ 2)
+    | _ => false
+  | _ => false
+
 /-- does the operation replace the whole content (no load needed at the root)? -/
 def Op.isOverwrite : Op → Bool
   | .dClear | .lClear | .dReset _ | .lReset _ => true
